@@ -228,6 +228,14 @@ class ECCMan(object):
             ecc_repaired = bytearray(_bytes(ecc_repaired))
             ecc_repaired = bytearray(max(0, self.n-k-len(ecc_repaired))) + ecc_repaired
 
+        # Sanity check against miscorrections: with more errors/erasures than the code can correct, a decoder may return another valid codeword than the original one, and the underlying libraries do not always notice that they went beyond their capacity (eg, the Singleton bound check of reedsolo.rs_correct_msg is ineffective when erasures are provided). So we count the corrections that were actually made: they must fit in the capacity of the code, 2*errors + erasures <= n-k, else the result cannot be trusted.
+        received = bytearray(_bytes(message)) + bytearray(_bytes(ecc))
+        repaired = bytearray(_bytes(msg_repaired)) + bytearray(_bytes(ecc_repaired))
+        erased = set(erasures_pos) if erasures_pos else set()
+        errors_count = sum(1 for i in _range(min(len(received), len(repaired))) if received[i] != repaired[i] and i not in erased)
+        if 2*errors_count + len(erased) > self.n-k:
+            raise reedsolo.ReedSolomonError("Too many errors/erasures: the corrections made go beyond the capacity of the code, the decoded message cannot be trusted")
+
         if pad: # Strip the null bytes if we padded the message before decoding
             msg_repaired = msg_repaired[len(pad):len(msg_repaired)]
         return _bytes(msg_repaired), _bytes(ecc_repaired)
